@@ -5,7 +5,7 @@
      disp k      client k dispatches a batch (two of its own datapoints, one on a series shared by all clients; with dynamic
                  headers on, client k's series carry header value k)          dispbad k   the same, plus a tag that is not valid UTF-8
      flush       manual: coordinator.Flush();  timer: virtual time passes one flush interval
-     out o n     the next n attempts are answered: ok | okshort (2xx whose response body breaks off) | 500 | connerr | slow (2 s, then 500)
+     out o n     the next n attempts are answered: ok | okshort (2xx whose response body breaks off) | 500 | 404 | connerr | slow (2 s, then 500)
      adv d       virtual time advances d ms (back-off timers fire)
      hold / release   dispatchers are made slow: a merging client is held inside the consolidator slot (large batch) *)
 EXTENDS Integers, Sequences, TLC, Json
@@ -15,7 +15,7 @@ Cfgs == {[slots |-> s, merge |-> m, reqs |-> r, w |-> w, dyn |-> d, manual |-> m
            s \in {1, 2}, m \in {1, 2}, r \in {1, 2}, w \in {-1, 3000}, d \in BOOLEAN, man \in BOOLEAN}
 O(op, k, o, n) == [op |-> op, k |-> k, o |-> o, n |-> n]
 Ops == {O("disp", k, "", 0) : k \in {1, 2}} \cup {O("dispbad", 2, "", 0)} \cup {O("flush", 0, "", 0)} \cup
-       {O("out", 0, o, n) : o \in {"ok", "okshort", "500", "connerr", "slow"}, n \in {1, 3}} \cup {O("adv", 0, "", d) : d \in {400, 1000, 4000}}
+       {O("out", 0, o, n) : o \in {"ok", "okshort", "500", "404", "connerr", "slow"}, n \in {1, 3}} \cup {O("adv", 0, "", d) : d \in {400, 1000, 4000}}
 Core == {
   [cfg |-> [slots |-> 2, merge |-> 1, reqs |-> 1, w |-> 3000, dyn |-> TRUE, manual |-> TRUE],
    sched |-> <<O("disp", 1, "", 0), O("disp", 2, "", 0), O("out", 0, "500", 3), O("flush", 0, "", 0), O("adv", 0, "", 1000), O("disp", 1, "", 0), O("flush", 0, "", 0),
@@ -24,7 +24,11 @@ Core == {
    sched |-> <<O("disp", 1, "", 0), O("out", 0, "connerr", 1), O("flush", 0, "", 0), O("disp", 2, "", 0), O("flush", 0, "", 0), O("out", 0, "slow", 1), O("disp", 1, "", 0),
                O("flush", 0, "", 0), O("adv", 0, "", 4000)>>],
   [cfg |-> [slots |-> 2, merge |-> 2, reqs |-> 2, w |-> 3000, dyn |-> FALSE, manual |-> TRUE],
-   sched |-> <<O("disp", 1, "", 0), O("dispbad", 2, "", 0), O("flush", 0, "", 0), O("adv", 0, "", 400)>>]
+   sched |-> <<O("disp", 1, "", 0), O("dispbad", 2, "", 0), O("flush", 0, "", 0), O("adv", 0, "", 400)>>],
+  [cfg |-> [slots |-> 2, merge |-> 1, reqs |-> 2, w |-> 3000, dyn |-> FALSE, manual |-> TRUE],
+   sched |-> <<O("dispbad", 1, "", 0), O("dispbad", 1, "", 0), O("disp", 2, "", 0), O("flush", 0, "", 0), O("adv", 0, "", 400)>>],
+  [cfg |-> [slots |-> 1, merge |-> 1, reqs |-> 1, w |-> 3000, dyn |-> FALSE, manual |-> TRUE],
+   sched |-> <<O("disp", 1, "", 0), O("out", 0, "404", 1), O("flush", 0, "", 0), O("adv", 0, "", 1000), O("adv", 0, "", 1000)>>]
 }
 ASSUME \A c \in Core : PrintT(<<"CASE", ToJson(c)>>)
 Init == cfg \in Cfgs /\ sched = <<>>
